@@ -742,6 +742,28 @@ def probe_sources():
         cj = "if (--%s > 0)" % r if LANGS[lk].countjmp_gt else "if (--%s)" % r
         body = "    %s goto fwd;\n    %s\nfwd:\n    %s\n" % (cj, call, call)
         out.append((lk, "countfwd", wrap_minimal(LANGS[lk], body)))
+    # per-difficulty instruction groups (what the decompiler folds into difficulty switches) with time labels,
+    # ordinary labels and differing shapes *inside* the group: every guard of the recognizer gets a near miss
+    for lk in ("ecl06", "ecl07", "ecl08"):
+        r = PROBE_REG[lk]
+        groups = []
+        v = [0]
+        def arm(label, extra=""):
+            v[0] += 1
+            digits = label.replace("E", "0").replace("N", "1").replace("H", "2").replace("L", "3")   # names always defined
+            return '    {"%s"}: %s = %d%s;\n' % (digits, r, v[0], extra)
+        for labels in (["E", "N", "H", "L"], ["E", "N", "HL"], ["EN", "H", "L"], ["E", "NH", "L"], ["E", "N"]):
+            for gap in range(0, len(labels)):
+                g = ""
+                for j, lab in enumerate(labels):
+                    if gap and j == gap:
+                        g += "+10:\n"
+                    g += arm(lab)
+                groups.append(g + "+5:\n")
+        # a jump target in the middle of a group, and a group whose arms differ in shape
+        groups.append(arm("E") + arm("N") + "mid:\n" + arm("H") + arm("L") + "    if (%s == 1) goto mid;\n" % r)
+        groups.append(arm("E") + arm("N", " + 1") + arm("H") + arm("L"))
+        out.append((lk, "diffgroups", wrap_minimal(LANGS[lk], "".join(groups))))
     for lk, op in sorted(PROBE_F_INSTR.items()):
         lang = LANGS[lk]
         mask = "@mask=0, " if lang.regs and lk != "ecl06" else ""
@@ -1175,6 +1197,9 @@ def run(chk, replay=None):
     live = [b for b in binaries if b.status == "ok"]
     for b in binaries:
         if b.status == "rejected":
+            if b.probe:
+                # a fixed probe is hand-written to compile: if it does not, the probe (or the tree) is broken
+                raise lib.ToolError("fixed probe %s/%s does not compile" % (b.lang.key, b.flavour))
             chk.add("sources_rejected_by_compile")
         elif b.status == "panic":
             chk.add("sources_where_compile_panicked")     # C04's domain; not judged here
